@@ -51,21 +51,22 @@ type GenPkg struct {
 
 // Run is one harness entry point.
 type Run struct {
-	Name       string            `json:"name"`
-	Pkg        string            `json:"pkg"` // import path
-	Files      []string          `json:"files"`
-	Entry      string            `json:"entry"`
-	Quick      map[string]int64  `json:"quick"`
-	Thorough   map[string]int64  `json:"thorough"`
-	Covers     []string          `json:"covers"`
-	Bounds     string            `json:"bounds"`
-	MaxPaths   int               `json:"maxpaths"`
-	TimeoutS   map[string]int    `json:"timeout_s"`
-	Tiers      []string          `json:"tiers"` // restrict to these tiers (default both)
-	NoNative   bool              `json:"no_native"`
-	Programs   int               `json:"programs"`
-	StepBudget int64             `json:"step_budget"`
-	Stubs      map[string]string `json:"stubs"`
+	Name       string              `json:"name"`
+	Pkg        string              `json:"pkg"` // import path
+	Files      []string            `json:"files"`
+	Entry      string              `json:"entry"`
+	Quick      map[string]int64    `json:"quick"`
+	Thorough   map[string]int64    `json:"thorough"`
+	Covers     []string            `json:"covers"`
+	Bounds     string              `json:"bounds"`
+	MaxPaths   int                 `json:"maxpaths"`
+	TimeoutS   map[string]int      `json:"timeout_s"`
+	Tiers      []string            `json:"tiers"` // restrict to these tiers (default both)
+	NoNative   bool                `json:"no_native"`
+	Programs   int                 `json:"programs"`
+	StepBudget int64               `json:"step_budget"`
+	Stubs      map[string]string   `json:"stubs"`
+	Extra      map[string][]string `json:"extra"` // other packages that receive harness files: import path -> files
 }
 
 // KnownFile is /verif/known-findings.json.
@@ -780,6 +781,32 @@ func (ld *loader) prepareOverlay(only string) ([]string, error) {
 		if !seenPkg[run.Pkg] {
 			seenPkg[run.Pkg] = true
 			patterns = append(patterns, run.Pkg)
+		}
+		for xp, xfiles := range run.Extra {
+			xdir := pkgDirOf(xp)
+			xname := ""
+			if ents, err := os.ReadDir(xdir); err == nil {
+				for _, e := range ents {
+					if strings.HasSuffix(e.Name(), ".go") && !strings.HasSuffix(e.Name(), "_test.go") {
+						b, _ := os.ReadFile(filepath.Join(xdir, e.Name()))
+						if m := pkgClause.FindSubmatch(b); m != nil {
+							xname = string(m[1])
+							break
+						}
+					}
+				}
+			}
+			xflat := strings.ReplaceAll(xp, "/", "_")
+			os.MkdirAll(filepath.Join(ld.scratch, xflat), 0o755)
+			for _, f := range xfiles {
+				b, err := os.ReadFile(filepath.Join(ld.hdir, f))
+				if err != nil {
+					return nil, err
+				}
+				real := filepath.Join(ld.scratch, xflat, filepath.Base(f))
+				os.WriteFile(real, []byte(strings.Replace(string(b), "package PKGNAME", "package "+xname, 1)), 0o644)
+				ld.overlay[filepath.Join(xdir, filepath.Base(f))] = real
+			}
 		}
 	}
 	return patterns, nil
